@@ -259,9 +259,11 @@ func c12RunDriver(c *Ctx, cs c12Case) (nontrivial bool) {
 	// does the driver add its documented fake mapping; then the two runs are compared with each other.
 	// mapping File / BuildID: what the fetch path may do to them is DOCUMENTED — a mapping with neither
 	// build id nor file, fetched from a URL, temporarily carries the source URL as its file and gets no
-	// file back (collectMappingSources / unsourceMappings). Everything else keeps its names. (A mapping
-	// WITHOUT build id whose own file name parses as an absolute URL cannot be told apart from that
-	// trick by the code as it is and is exempted here.)
+	// file back (collectMappingSources / unsourceMappings). Everything else must keep its names.
+	// KNOWN FINDING (own signature, KNOWN_FINDINGS.jsonl): a mapping WITHOUT build id whose own file
+	// name parses as an absolute URL loses it, because unsourceMappings cannot tell it from that trick.
+	// The same loss for a mapping WITH a build id, or any other change, is an ordinary violation.
+	const knownSig = "tables/url-like-file-without-buildid-cleared"
 	urlLike := func(m *profile.Mapping) bool {
 		if m.BuildID != "" || filepath.VolumeName(m.File) != "" {
 			return false
@@ -278,14 +280,19 @@ func c12RunDriver(c *Ctx, cs c12Case) (nontrivial bool) {
 			// several sources are merged (mappings deduplicated and renumbered): every mapping of the
 			// output must still carry a (file, build id) pair of the input
 			have := map[[2]string]bool{}
+			lossy := ""
 			for _, m := range input.Mapping {
 				have[[2]string{m.File, m.BuildID}] = true
-				if urlLike(m) {
-					have[[2]string{"", ""}] = true
+				if urlLike(m) && m.File != "" {
+					lossy = m.File
 				}
 			}
 			for _, m := range out.Mapping {
 				if !have[[2]string{m.File, m.BuildID}] {
+					if m.File == "" && m.BuildID == "" && lossy != "" {
+						c.Violation(sig+knownSig, fmt.Sprintf("`pprof -proto -symbolize=%s` (%d sources): a mapping without build id lost its file name %q (it parses as an absolute URL)", which, cs.NSrc, lossy), cs)
+						continue
+					}
 					c.Violation(sig+"tables/mapping-file-differs-from-input", fmt.Sprintf("`pprof -proto -symbolize=%s` (%d sources): mapping with file %q build id %q is not a mapping of the fetched profiles", which, cs.NSrc, m.File, m.BuildID), cs)
 				}
 			}
@@ -305,7 +312,9 @@ func c12RunDriver(c *Ctx, cs c12Case) (nontrivial bool) {
 			if o.BuildID != m.BuildID {
 				c.Violation(sig+"tables/mapping-buildid-differs-from-input", fmt.Sprintf("`pprof -proto -symbolize=%s`: build id of mapping %d changed from %q to %q", which, m.ID, m.BuildID, o.BuildID), cs)
 			}
-			if o.File != m.File && !(urlLike(m) && o.File == "") {
+			if o.File != m.File && urlLike(m) && o.File == "" {
+				c.Violation(sig+knownSig, fmt.Sprintf("`pprof -proto -symbolize=%s`: mapping %d has no build id and lost its file name %q (it parses as an absolute URL)", which, m.ID, m.File), cs)
+			} else if o.File != m.File {
 				c.Violation(sig+"tables/mapping-file-differs-from-input", fmt.Sprintf("`pprof -proto -symbolize=%s`: file of mapping %d (build id %q) changed from %q to %q", which, m.ID, m.BuildID, m.File, o.File), cs)
 			}
 		}
